@@ -126,6 +126,10 @@ def opCore (j : Json) : Json :=
   let flat := getBool j "flat"
   let split := getNat j "split"
   let coords := Json.mkObj [("fn_args", toJson s.fnArgs), ("coords", toJson s.coords)]
+  -- the public entry points parse the grid first: a repeated value is rejected before anything runs
+  match Core.parseCombos (.pairs (s.comboArgs.zip s.comboVals)) with
+  | .error _ => err "duplicate"
+  | .ok _ =>
   if split == 0 then
     match Core.core (fun loc => Sym.r loc) (symNanLike kind) s st with
     | .error e => err (coreErr e)
